@@ -106,6 +106,51 @@ def path_cases(ck, cases, rnd, n):
                         case={'segs': [c['seg'] for c in chosen], 'z': zc}, expected=[emin, emax], observed=[dmin, dmax], driver='path')
 
 
+def line_paths_and_near_misses(ck, cases):
+    """(a) every ordered pair of the model's lines (either direction) as a two-piece path that is not connected: the extremes are the extremes over the pieces, wherever on
+    a piece they lie (also at the *start* of the second piece); (b) query points next to, but not on, a line: d is the distance, not 0"""
+    lines = []
+    for c in cases:
+        if len(c['seg']) == 2 and c['seg'] not in [l for l in lines]:
+            lines.append(c['seg'])
+    segs = [make(l) for l in lines] + [make(l[::-1]) for l in lines]
+    zs = sorted(set(tuple(c['z']) for c in cases))
+    for zc in zs:
+        z = complex(*zc)
+        for i, a in enumerate(segs):
+            for j, b in enumerate(segs):
+                if i == j:
+                    continue
+                p = sp.Path(a, b)
+                ck.case(fp=('line-pair-path', i, j, zc), nontrivial=True)
+                per = [x.radialrange(z) for x in (a, b)]
+                emin, emax = min(r[0][0] for r in per), max(r[1][0] for r in per)
+                try:
+                    rr, cp, fp_ = p.radialrange(z), sp.closest_point_in_path(z, p), sp.farthest_point_in_path(z, p)
+                    ok = abs(rr[0][0] - emin) <= 1e-12 * (emax + 1) and abs(rr[1][0] - emax) <= 1e-12 * (emax + 1) and abs(cp[0] - emin) <= 1e-12 * (emax + 1) and \
+                        abs(fp_[0] - emax) <= 1e-12 * (emax + 1) and abs(abs(p[fp_[2]].point(fp_[1]) - z) - emax) <= 1e-9 * (emax + 1) and abs(abs(p[cp[2]].point(cp[1]) - z) - emin) <= 1e-9 * (emax + 1)
+                except Exception as e:      # noqa
+                    ok, rr, cp, fp_ = False, e, None, None
+                if not ok:
+                    ck.disagree(key='Path.radialrange/two-disconnected-lines', site='svgpathtools/path.py:Path.radialrange / closest_point_in_path / farthest_point_in_path',
+                                what='%r from %r: radialrange %r, closest %r, farthest %r; the pieces give %r / %r' % (p, z, rr, cp, fp_, emin, emax),
+                                case={'a': repr(a), 'b': repr(b), 'z': zc}, expected=[emin, emax], observed=repr((cp, fp_)), driver='path')
+                    return
+    for (a, b, z, dexp, texp) in ((0j, 2e6 + 0j, 1e6 + 0.01j, 0.01, 0.5), (0j, 2e6 + 0j, 5e5 - 0.004j, 0.004, 0.25), (0j, 1e-5 + 0j, 5e-6 + 3e-7j, 3e-7, 0.5),
+                                  (0j, 10 + 0j, 10.0000005 + 0j, 5e-7, 1.0), (0j, 10 + 0j, -3e-7j, 3e-7, 0.0), (1 + 1j, 4 + 5j, 1 + 1j + 0.5 * (3 + 4j) + 2e-9 * (4 - 3j), 1e-8, 0.5)):
+        ln = sp.Line(a, b)
+        ck.case(fp=('line-near-miss', str(a), str(b), str(z)), nontrivial=True)
+        try:
+            (dmin, tmin), _ = ln.radialrange(z)
+            cp = sp.closest_point_in_path(z, sp.Path(sp.Line(a + 9j, b + 9j), ln))
+        except Exception as e:      # noqa
+            dmin, tmin, cp = e, None, None
+        if isinstance(dmin, Exception) or not (abs(dmin - dexp) <= 1e-3 * dexp) or not (abs(tmin - texp) <= 1e-6) or cp[2] != 1 or not (abs(cp[0] - dexp) <= 1e-3 * dexp):
+            ck.disagree(key='Line.radialrange/point-next-to-the-line', site='svgpathtools/path.py:Line.radialrange',
+                        what='%r, point %r: radialrange min (%r, %r), closest_point_in_path %r; the distance is %r at t = %r' % (ln, z, dmin, tmin, cp, dexp, texp),
+                        case={'a': str(a), 'b': str(b), 'z': str(z)}, expected=[dexp, texp], observed=repr((dmin, tmin)), driver='line')
+
+
 def run(ck):
     rnd = random.Random(ck.seed)
     quick = ck.tier == 'quick'
@@ -133,6 +178,7 @@ def run(ck):
         seg_case(ck, c, lambda v: 1e4 * w * v, 'rotated 30 deg, scaled 1e4', 1e4)
     ck.sample('segment', r.cases[len(r.cases) // 2])
     path_cases(ck, r.cases, rnd, 80 if quick else 600)
+    line_paths_and_near_misses(ck, r.cases)
 
 
 def replay(rec):
